@@ -35,10 +35,14 @@ OUTSIDE = ["the distribution of the numbers (statistics, not semantics)", "sizes
 
 class RvsStub:
     calls = 0
+    received = []       # the random_state of every draw (must be the caller's seed: the seed contract)
 
     @staticmethod
     def rvs(mean, cov, size=1, random_state=None):
         RvsStub.calls += 1
+        RvsStub.received.append(random_state)
+        if isinstance(random_state, SymInt):
+            random_state = "S"
         p = len(np.atleast_1d(mean))
         Z = np.empty((size, p), dtype=object)
         for i in range(size):
@@ -48,7 +52,21 @@ class RvsStub:
 
 
 def zvar(seed, n, p, i, j):
-    return z3.Real(f"z_{seed}_{n}_{p}_{i}_{j}")
+    return z3.Real(f"z_{'S' if isinstance(seed, SymInt) else seed}_{n}_{p}_{i}_{j}")
+
+
+def seed_obligation(eng, acc, seed, info):
+    """every draw was seeded with exactly the seed the caller gave"""
+    rec, RvsStub.received = RvsStub.received, []
+    ok = bool(rec)
+    for r in rec:
+        if r is None:
+            ok = False
+        elif isinstance(seed, SymInt):
+            ok = ok and isinstance(r, (SymInt, int, np.integer)) and eng.valid((r.t if isinstance(r, SymInt) else z3.IntVal(int(r))) == seed.t)[0] is True
+        else:
+            ok = ok and not isinstance(r, SymInt) and r == seed
+    acc.concrete("rng_is_seeded_with_the_given_seed", ok, dict(info, received=[str(r) for r in rec]), eng=eng)
 
 
 class stubbed:
@@ -76,7 +94,8 @@ def make_changing(n, p, k, percol=False):
     vs = [[z3.Real(f"var_{s}_{j}") for j in range(p if percol else 1)] for s in range(k + 1)]
     base = [z3.And(c >= -1, c <= n + 1) for c in cps] + [v >= 0 for row in vs for v in row]
     info = dict(gen="changing", n=n, p=p, k=k, percol=percol)
-    seed = 7
+    seed = SymInt(z3.Int("seed"))
+    base = base + [z3.Int("seed") >= 0, z3.Int("seed") <= 3]
 
     def run(eng, acc):
         with stubbed() as gen:
@@ -92,6 +111,7 @@ def make_changing(n, p, k, percol=False):
             args = dict(n=n, changepoints=[SymInt(c) for c in cps], means=means, variances=variances, random_state=seed)
             outside = z3.Or([z3.Or(c < 0, c > n) for c in cps]) if cps else z3.BoolVal(False)
             valid = z3.And([c >= 0 for c in cps] + [c <= n - 1 for c in cps] + [a < b for a, b in zip(cps[:-1], cps[1:])])
+            RvsStub.received = []
             try:
                 df = gen.generate_changing_data(**args)
             except ValueError:
@@ -102,6 +122,7 @@ def make_changing(n, p, k, percol=False):
                 acc.concrete("changing.only_ValueError", False, dict(info, exception=f"{type(ex).__name__}: {ex}"[:160]), eng=eng)
                 return
             acc.oblige(eng, "changing.positions_outside_the_data_rejected", z3.Not(outside), info)
+            seed_obligation(eng, acc, seed, info)
             ok, _ = eng.valid(valid)
             if ok is not True:
                 acc.inc("paths_with_unconstrained_inputs")
@@ -134,7 +155,7 @@ def make_anomalous(n, p, k):
     vs = [z3.Real(f"var_{s}") for s in range(k)]
     base = [z3.And(c >= -1, c <= n + 1) for c in ss + es] + [v >= 0 for v in vs]
     info = dict(gen="anomalous", n=n, p=p, k=k)
-    seed = 11
+    seed = 0
 
     def run(eng, acc):
         with stubbed() as gen:
@@ -149,6 +170,7 @@ def make_anomalous(n, p, k):
             outside = z3.Or([z3.Or(a < 0, b > n) for a, b in zip(ss, es)])
             empty = z3.Or([b <= a for a, b in zip(ss, es)])
             valid = z3.And([z3.And(a >= 0, a < b, b <= n) for a, b in zip(ss, es)] + [es[i] <= ss[i + 1] for i in range(k - 1)])
+            RvsStub.received = []
             try:
                 df = gen.generate_anomalous_data(**args)
             except ValueError:
@@ -160,6 +182,7 @@ def make_anomalous(n, p, k):
                 return
             acc.oblige(eng, "anomalous.positions_outside_the_data_rejected", z3.Not(outside), info)
             acc.oblige(eng, "anomalous.empty_anomalies_rejected", z3.Not(empty), info)
+            seed_obligation(eng, acc, seed, info)
             ok, _ = eng.valid(valid)
             if ok is not True:
                 acc.inc("paths_with_unconstrained_inputs")
@@ -188,7 +211,7 @@ def make_misc(nmax, pmax):
 
     def run(eng, acc):
         with stubbed() as gen:
-            seed = 3
+            seed = 0
             for nseg in (1, 2, 3):
                 for L in (1, 2):
                     for p in range(1, pmax + 1):
@@ -249,16 +272,19 @@ def make_misc(nmax, pmax):
         # the real scipy draw is deterministic in the seed and the real output obeys the definition
         import skchange.datasets.generate as g
         with proxy.native():
-            a = g.generate_changing_data(6, [2, 4], [0.0, 2.0, -1.0], [1.0, 4.0, 0.25], random_state=5)
-            b = g.generate_changing_data(6, [2, 4], [0.0, 2.0, -1.0], [1.0, 4.0, 0.25], random_state=5)
-            z = g.generate_changing_data(6, [2, 4], [0.0, 0.0, 0.0], [1.0, 1.0, 1.0], random_state=5)
-            want = z.values.copy()
-            want[2:4] = 2.0 + 2.0 * want[2:4]
-            want[4:6] = -1.0 + 0.5 * want[4:6]
-            acc.concrete("real_rng.same_seed_same_frame", a.equals(b), dict(info, part="seed"))
-            acc.concrete("real_rng.output_is_affine_image_of_standard_draw", bool(np.allclose(a.values, want)), dict(info, part="seed"))
-            if np.allclose(a.values, want):
-                acc.inc("translator_ok")
+            for sd_ in (0, 1, 5):
+                a = g.generate_changing_data(6, [2, 4], [0.0, 2.0, -1.0], [1.0, 4.0, 0.25], random_state=sd_)
+                b = g.generate_changing_data(6, [2, 4], [0.0, 2.0, -1.0], [1.0, 4.0, 0.25], random_state=sd_)
+                z = g.generate_changing_data(6, [2, 4], [0.0, 0.0, 0.0], [1.0, 1.0, 1.0], random_state=sd_)
+                c2 = g.generate_anomalous_data(6, [(1, 3)], [2.0], [4.0], random_state=sd_)
+                d2 = g.generate_anomalous_data(6, [(1, 3)], [2.0], [4.0], random_state=sd_)
+                want = z.values.copy()
+                want[2:4] = 2.0 + 2.0 * want[2:4]
+                want[4:6] = -1.0 + 0.5 * want[4:6]
+                acc.concrete("real_rng.same_seed_same_frame", a.equals(b) and c2.equals(d2), dict(info, part="seed", seed=sd_))
+                acc.concrete("real_rng.output_is_affine_image_of_standard_draw", bool(np.allclose(a.values, want)), dict(info, part="seed", seed=sd_))
+                if np.allclose(a.values, want):
+                    acc.inc("translator_ok")
         acc.sample(dict(info, checked=["alternating", "outliers", "counts", "seed"]))
 
     return Harness(run, base, sliced=True, timeout_ms=10000, name="misc")
@@ -300,10 +326,14 @@ def replay(cx):
             vs = [[f(f"var_{s}_{j}", 1) for j in range(p if percol else 1)] for s in range(k + 1)]
             means = [np.array(m * (1 if percol else p)) for m in mus]
             variances = [np.array(v * (1 if percol else p)) for v in vs]
+            sd_ = gi("seed", 0)
             try:
-                df = g.generate_changing_data(n, list(cps), means, variances, random_state=7)
-                z = g.generate_changing_data(n, [], [np.zeros(p)], [np.ones(p)], random_state=7).values
+                df = g.generate_changing_data(n, list(cps), means, variances, random_state=sd_)
+                z = g.generate_changing_data(n, [], [np.zeros(p)], [np.ones(p)], random_state=sd_).values
+                again = g.generate_changing_data(n, list(cps), means, variances, random_state=sd_)
                 outcome = "returned"
+                if ob.startswith("rng_") and not df.equals(again):
+                    bad.append(f"two calls with random_state={sd_} and equal arguments return different frames")
             except ValueError:
                 outcome = "ValueError"
             except Exception as ex:
@@ -329,8 +359,8 @@ def replay(cx):
             means = [np.full(p, f(f"mu_{s}", s + 1)) for s in range(k)]
             variances = [np.full(p, f(f"var_{s}", 1)) for s in range(k)]
             try:
-                df = g.generate_anomalous_data(n, list(an), means, variances, random_state=11)
-                z = g.generate_anomalous_data(n, [(0, 1)], [np.zeros(p)], [np.ones(p)], random_state=11).values
+                df = g.generate_anomalous_data(n, list(an), means, variances, random_state=0)
+                z = g.generate_anomalous_data(n, [(0, 1)], [np.zeros(p)], [np.ones(p)], random_state=0).values
                 outcome = "returned"
             except ValueError:
                 outcome = "ValueError"
@@ -379,6 +409,13 @@ def replay(cx):
                         bad.append(f"generate_alternating_data({nseg}, {L}, p={p}, affected_proportion={prop}) differs from the definition")
                 except Exception as ex:
                     bad.append(f"generate_alternating_data({nseg}, {L}, p={p}) raised {type(ex).__name__}: {ex}")
+            elif part == "seed":
+                sd_ = info.get("seed", 0)
+                a = g.generate_changing_data(6, [2, 4], [0.0, 2.0, -1.0], [1.0, 4.0, 0.25], random_state=sd_)
+                b = g.generate_changing_data(6, [2, 4], [0.0, 2.0, -1.0], [1.0, 4.0, 0.25], random_state=sd_)
+                if not a.equals(b):
+                    bad.append(f"generate_changing_data called twice with random_state={sd_} returns different frames")
+                key = f"misc|seed|{ob}"
             else:
                 bad.append(f"{ob}: {info}")
     return dict(reproduced=bool(bad), key=key, what="; ".join(bad)[:600])
